@@ -70,11 +70,26 @@ type Transfer struct {
 }
 
 type SymBank struct {
-	bal map[BalKey]*big.Int
-	Log []Transfer
+	bal  map[BalKey]*big.Int
+	init map[BalKey]*big.Int
+	Log  []Transfer
 }
 
-func NewSymBank() *SymBank { return &SymBank{bal: map[BalKey]*big.Int{}} }
+func NewSymBank() *SymBank { return &SymBank{bal: map[BalKey]*big.Int{}, init: map[BalKey]*big.Int{}} }
+
+// restore resets every balance to its value at a snapshot; accounts first touched later return to their
+// (remembered) initial balance.
+func (b *SymBank) restore(old map[BalKey]*big.Int) {
+	nb := map[BalKey]*big.Int{}
+	for k := range b.bal {
+		if v, ok := old[k]; ok {
+			nb[k] = v
+		} else {
+			nb[k] = b.init[k]
+		}
+	}
+	b.bal = nb
+}
 
 func (b *SymBank) balance(addr, denom string) *big.Int {
 	k := BalKey{addr, denom}
@@ -83,6 +98,7 @@ func (b *SymBank) balance(addr, denom string) *big.Int {
 	}
 	v := sym.InitBalance(addr, denom)
 	b.bal[k] = v
+	b.init[k] = v
 	return v
 }
 
@@ -337,6 +353,14 @@ type World struct {
 	SaoMsg  saotypes.MsgServer
 	NodeMsg nodetypes.MsgServer
 	DidMsg  didtypes.MsgServer
+
+	bankSnaps []bankSnap
+}
+
+type bankSnap struct {
+	id   int
+	bal  map[BalKey]*big.Int
+	nlog int
 }
 
 func (w *World) Height() int64 { return w.Ctx.BlockHeight() }
@@ -387,7 +411,34 @@ func (w *World) TransferCount() int              { return len(w.Bank.Log) }
 func (w *World) TransfersSince(n int) []Transfer { return w.Bank.Log[n:] }
 func (w *World) Bal(addr, denom string) *big.Int { return w.Bank.Bal(addr, denom) }
 
-func (w *World) Snapshot() int           { return sym.Snapshot() }
+func (w *World) Snapshot() int {
+	id := sym.Snapshot()
+	cp := map[BalKey]*big.Int{}
+	for k, v := range w.Bank.bal {
+		cp[k] = v
+	}
+	w.bankSnaps = append(w.bankSnaps, bankSnap{id: id, bal: cp, nlog: len(w.Bank.Log)})
+	return id
+}
+
+// Rollback discards the writes and transfers made since the snapshot; the materialised pre-state stays,
+// so a second run sees exactly the same committed state as the first.
+func (w *World) Rollback(snap int) {
+	sym.Rollback(snap)
+	for _, bs := range w.bankSnaps {
+		if bs.id == snap {
+			// balances first read after the snapshot stay initial balances: keep them
+			for k, v := range w.Bank.bal {
+				if _, ok := bs.bal[k]; !ok {
+					_ = v
+				}
+			}
+			w.Bank.restore(bs.bal)
+			w.Bank.Log = w.Bank.Log[:bs.nlog]
+		}
+	}
+	w.Ctx = w.Ctx.WithEventManager(sdk.NewEventManager())
+}
 func (w *World) At(snap int, f func())   { sym.At(snap, f) }
 func (w *World) WrittenUint64(snap int, store, prefix string) []uint64 {
 	return sym.WrittenUint64(snap, store, prefix)
